@@ -349,32 +349,38 @@ func c14Concurrent(r *h.Result, rng *h.Rng, workers, perWorker int) {
 }
 
 func c14(r *h.Result, rng *h.Rng, tier string, replay string) error {
-	r.Rule = "reexec-model: generated log queries (≤3 matchers, ≤3 stages) × 2–5 executions with contexts advancing by 1–5 s (10 %: by a day); reexec-traceql: generated TraceQL scripts (≤3 selectors, nested conditions, aggregators, 8 % with a term rejected at Process time) × contexts of 2–5 portions of a complex search / plain re-execution / mixed, 40 % dirty; reexec-dirty-logql: 22 templates beyond the model fragment + 24 templates covering every stage kind + generated metric and log queries × 2–5 executions, 70 % dirty; retranslate-api: generated texts with stages before an in-process stage × 2–4 translations; portions-real: generated TraceQL scripts × scripted complexity (1–5 portions, 15 % simple) × scripted finds per portion; reexec-model-metric: generated metric queries of the C08 fragment × 2–5 executions; fmt-model: generated templates × 2–4 calls, 50 % dirty; reexec-shape: 24 LogQL templates, 7 TraceQL scripts, 3 Pyroscope selectors × 2 planners, × rounds; every case re-executes or re-translates at least twice (non-trivial); distinct by (query, contexts)"
+	r.Rule = "history-cross: pools of ≤ 40 jobs over 6 planner families (13 log, 12 metric, 2 series/values, 5 TraceQL, 4 PromQL, 4 Pyroscope) × (pristine child per job + full passes of the pool twice + random sequences of 2–6 jobs), each in its own child process; non-trivial = at least two translations in one process; heap-model: random programs of 3–14 instructions (+ nested branches) over ≤ 2 package-level lists × 1–3 translations, 30 % the seeded shapes; reexec-model: generated log queries (≤3 matchers, ≤3 stages) × 2–5 executions with contexts advancing by 1–5 s (10 %: by a day); reexec-traceql: generated TraceQL scripts (≤3 selectors, nested conditions, aggregators, 8 % with a term rejected at Process time) × contexts of 2–5 portions of a complex search / plain re-execution / mixed, 40 % dirty; reexec-dirty-logql: 22 templates beyond the model fragment + 24 templates covering every stage kind + generated metric and log queries × 2–5 executions, 70 % dirty; retranslate-api: generated texts with stages before an in-process stage × 2–4 translations; portions-real: generated TraceQL scripts × scripted complexity (1–5 portions, 15 % simple) × scripted finds per portion; reexec-model-metric: generated metric queries of the C08 fragment × 2–5 executions; fmt-model: generated templates × 2–4 calls, 50 % dirty; reexec-shape: 24 LogQL templates, 7 TraceQL scripts, 3 Pyroscope selectors × 2 planners, × rounds; every case re-executes or re-translates at least twice (non-trivial); distinct by (query, contexts)"
 	if replay != "" {
 		return c14Replay(r, replay)
 	}
 	n, rounds := 300, 2
+	hRounds, hPasses, hSeqs := 1, 4, 90
 	if tier != "quick" {
 		n, rounds = 5000, 40
+		hRounds, hPasses, hSeqs = 12, 6, 200
 	}
-	if err := c14Model(r, rng.Fork(), n); err != nil {
+	// a model that cannot answer (the driver is the last good one of an earlier run, or died) must not keep the
+	// remaining streams from running: their oracles judge the implementation alone. The failure stays loud: it is
+	// recorded as a disagreement of that stream.
+	soft := func(stream string, err error) {
+		if err != nil {
+			r.Disagree(stream, "model-unavailable", "-", trunc(err.Error(), 300), nil)
+			r.Notes = append(r.Notes, "stream "+stream+": the model driver could not answer ("+trunc(err.Error(), 200)+"); the stream's oracle ran, its model comparison did not")
+		}
+	}
+	// first: needs no model at all
+	if err := c14History(r, rng.Fork(), hRounds, hPasses, hSeqs); err != nil {
 		return err
 	}
-	if err := c14TraceQL(r, rng.Fork(), n*2); err != nil {
-		return err
-	}
-	if err := c14MetricModel(r, rng.Fork(), n); err != nil {
-		return err
-	}
-	if err := c14FmtModel(r, rng.Fork(), n); err != nil {
-		return err
-	}
+	soft("heap-model", c14HeapModel(r, rng.Fork(), n*2))
+	soft("reexec-model", c14Model(r, rng.Fork(), n))
+	soft("reexec-traceql", c14TraceQL(r, rng.Fork(), n*2))
+	soft("reexec-model-metric", c14MetricModel(r, rng.Fork(), n))
+	soft("fmt-model", c14FmtModel(r, rng.Fork(), n))
 	c14DirtyLogQL(r, rng.Fork(), n*2)
 	c14Retranslate(r, rng.Fork(), n)
 	c14Loop(r, rng.Fork(), n)
-	if err := c14Shape(r, rng.Fork(), rounds); err != nil {
-		return err
-	}
+	soft("reexec-shape", c14Shape(r, rng.Fork(), rounds))
 	if tier == "quick" {
 		c14Concurrent(r, rng.Fork(), 8, 400)
 	} else {
